@@ -77,15 +77,16 @@ def positive_read(g, exons, i, j, delta, end_slack=0, min_len=25):
     out = []
     for k, (a, b) in enumerate(sub):
         first, last = k == 0, k == len(sub) - 1
+        m = min(min_len, max(1, (b - a) // 2))        # short (micro) exons keep a shorter minimal overhang
         if first:
             lo = a - end_slack if i == 0 else a
-            s = g.int("read_start", lo, b - min_len)
+            s = g.int("read_start", lo, b - m if not last else b - 2 * m)
         else:
             d = g.int("jitter_acceptor%d" % (i + k), -delta, delta)
             s = a + d
         if last:
             hi = b + end_slack if j == len(exons) - 1 else b
-            e = g.int("read_end", (s if first else a) + min_len, hi)
+            e = g.int("read_end", (s + m) if first else (a + m), hi)
         else:
             d = g.int("jitter_donor%d" % (i + k), -delta, delta)
             e = b + d
